@@ -8,9 +8,14 @@
    raises leaves the previous document version intact; (F2) the call returns and leaves no lock,
    for every fault plan that never fails the flock itself (in particular every one-off fault not
    delivered to a flock).
+   (F4), ONE-OFF faults, pid unbound in the start state: a failed tag_object / store_object leaves
+   the pid unbound (no reference, in no cid list: no stale line survives a one-off fault), no lock,
+   and the same call issued again succeeds ([C13g_tag_one_off_fault], [C13g_store_one_off_fault]).
+   FINDING [C13g_duplicate_store_fault_untags]: when the pid is ALREADY bound to that cid, a
+   one-off makedirs failure makes the roll-back remove the existing binding.
    NOT proved in general (menu only): (F2) when the flock itself fails; (F3) "success => the
-   permanent files are those of the fault-free run"; (F4) the state of the pid after a failed
-   store_object / tag_object under a one-off fault.  For PERSISTENT faults (F4) is false: witness
+   permanent files are those of the fault-free run"; (F4) for a pid that is already bound, and for
+   store_object with a stream source or supplied size / checksum.  For PERSISTENT faults (F4) is false: witness
    [C13g_persistent_fault_defeats_rollback], and the full statement [C13_general_statement] is
    refuted by it ([C13g_statement_false]). *)
 From HS Require Import Base PyVal FS Ops Spec Sched Refine CrashFault Integrity CrashGeneral FaultGeneral.
@@ -262,3 +267,55 @@ Example C13g_nonvacuous_meta :
     Some (mkWorld [(AMeta 1 0, CData 5 1 1)] [], Exn EOSError).
 Proof. vm_compute. reflexivity. Qed.
 Print Assumptions C13g_nonvacuous_meta.
+
+(* =================================================================================== *)
+(* (F4) one-off faults: the roll-back works                                              *)
+(* =================================================================================== *)
+
+(* tag_object(p, c), p unbound in the start state, any one-off fault: if the call raises then no
+   lock is left, no object changed, p has no reference and is in NO cid list, and the same call
+   issued again succeeds and binds p *)
+Theorem C13g_tag_one_off_fault :
+  forall (w0 : world) (p : pid) (c : cid) (j : nat) (w : world) (e : exn),
+    Inv w0 -> lookup (APidRef p) (fs w0) = None ->
+    run_fault (FWait j false) w0 (api (CTag p c)) = Some (w, Exn e) ->
+    locks w = [] /\
+    (forall k : cid, lookup (AObj k) (fs w) = lookup (AObj k) (fs w0)) /\
+    (lookup (APidRef p) (fs w) = None /\
+     (forall (k : cid) (l : list pid), lookup (ACidRef k) (fs w) = Some (CLines l) -> ~ In p l) /\
+     exists (w2 : world) (v : value),
+       run_seq w (api (CTag p c)) = Some (w2, Val v) /\
+       (lookup (APidRef p) (fs w2) = Some (CCid c) /\
+        exists l : list pid, lookup (ACidRef c) (fs w2) = Some (CLines l) /\ In p l)).
+Proof. exact tag_one_off_fault. Qed.
+Print Assumptions C13g_tag_one_off_fault.
+
+(* store_object(p, content b of n chunks, from a path, no size / checksum supplied), p unbound in
+   the start state, any one-off fault: if the call raises then no lock is left, p has no reference
+   and is in no cid list, and the same call issued again succeeds and p is retrievable with b *)
+Theorem C13g_store_one_off_fault :
+  forall (w0 : world) (p : pid) (b n j : nat) (w : world) (e : exn),
+    let c := CStore (Some p) SrcPath b n VSzNone VCkNone in
+    Inv w0 -> lookup (APidRef p) (fs w0) = None -> call_size_ok w0 c ->
+    run_fault (FWait j false) w0 (api c) = Some (w, Exn e) ->
+    locks w = [] /\
+    (lookup (APidRef p) (fs w) = None /\
+     (forall (k : cid) (l : list pid), lookup (ACidRef k) (fs w) = Some (CLines l) -> ~ In p l) /\
+     exists (w2 : world) (v : value),
+       run_seq w (api c) = Some (w2, Val v) /\ retr w2 p = Some (Val (CData b n n))).
+Proof. exact store_one_off_fault. Qed.
+Print Assumptions C13g_store_one_off_fault.
+
+(* FINDING: a duplicate store_object / tag_object (the pid is already bound to that cid) that
+   fails at makedirs, before anything was written, raises OSError and its roll-back removes the
+   EXISTING binding (pid reference and cid list gone, object left without reference) *)
+Example C13g_duplicate_store_fault_untags :
+  let w1 := mkWorld [(AObj 7, CData 7 1 1); (APidRef 1, CCid 7); (ACidRef 7, CLines [1])] [] in
+  let c := CStore (Some 1) SrcPath 7 1 VSzNone VCkNone in
+  run_seq empty_world (api c) = Some (w1, Val (VMeta 7 1)) /\
+  run_seq w1 (api c) = Some (w1, Exn EHashStoreRefsAlreadyExists) /\
+  site_op 3 w1 (api c) = Some (MkDirs (APidRef 1)) /\
+  run_fault (FWait 3 false) w1 (api c) = Some (mkWorld [(AObj 7, CData 7 1 1)] [], Exn EOSError) /\
+  run_fault (FWait 0 false) w1 (api (CTag 1 7)) = Some (mkWorld [(AObj 7, CData 7 1 1)] [], Exn EOSError).
+Proof. exact duplicate_store_fault_untags. Qed.
+Print Assumptions C13g_duplicate_store_fault_untags.
